@@ -106,6 +106,7 @@ func __forallcells[T any](f func(T) bool) bool   { return true }
 func __iterstart[T any](x T) T                   { return x }
 func __samecontent(a, b any) bool                { return true }
 func __samemap(a, b any) bool                    { return true }
+func __cancelled(ctx any) bool                   { return false }
 func __rlocks(mu any) int                        { return 0 }
 func __wlocked(mu any) bool                      { return false }
 func __forallkeys[K comparable, V any](m map[K]V, f func(K) bool) bool {
@@ -137,7 +138,7 @@ func __exists(lo, hi int, f func(int) bool) bool {
 
 // racExecutable: the clause uses no specification-only builtin (ghost state,
 // allocation freshness, aliasing predicates), which have no run-time meaning.
-var racGhostRe = regexp.MustCompile(`\b(sentcount|lastsent|ghost|fresh|samefn|sameslice|disjoint|entry|rangeindex|visited|rlocks|wlocked|samecontent|samemap|iterstart)\(|\bin allocated\b`)
+var racGhostRe = regexp.MustCompile(`\b(sentcount|lastsent|ghost|fresh|samefn|sameslice|disjoint|entry|rangeindex|visited|rlocks|wlocked|samecontent|samemap|iterstart|cancelled)\(|\bin allocated\b`)
 
 func racExecutable(text string) bool {
 	if racGhostRe.MatchString(text) {
